@@ -160,6 +160,18 @@ pub fn state_vars<'a>(t: &'a RTree<'a>) -> Vec<StateVar<'a>> {
     out
 }
 
+/// the quantifier of C06 / C08 / C19: state-variable names are unique within the file
+pub fn unique_state_var_names(text: &str) -> bool {
+    match solang_parser::parse(text, 0) {
+        Ok((su, _)) => {
+            let t = RTree::convert(&su);
+            let mut seen = HashSet::new();
+            state_vars(&t).iter().all(|sv| seen.insert(sv.name.clone()))
+        }
+        Err(_) => false,
+    }
+}
+
 fn var_is(d: &pt::VariableDefinition, f: impl Fn(&pt::VariableAttribute) -> bool) -> bool {
     d.attrs.iter().any(f)
 }
@@ -1132,7 +1144,7 @@ fn r_immutable_variables(t: &RTree) -> Vec<Verdict> {
         }
         let mine: Vec<&Write> = ws.iter().filter(|w| w.direct.as_deref() == Some(sv.name.as_str()) || w.rooted.iter().any(|r| *r == sv.name)).collect();
         // No (1): no write of any form in a constructor / base arguments / initialiser
-        let ctorish = mine.iter().any(|w| matches!(place(t, w.node).0, Place::Body(pt::FunctionTy::Constructor) | Place::Attr(pt::FunctionTy::Constructor) | Place::ContractBase | Place::VarDef));
+        let ctorish = mine.iter().any(|w| matches!(place(t, w.node).0, Place::Body(pt::FunctionTy::Constructor) | Place::Attr(pt::FunctionTy::Constructor) | Place::Sig(pt::FunctionTy::Constructor) | Place::ContractBase | Place::VarDef));
         if !ctorish {
             continue;
         }
